@@ -27,7 +27,12 @@ RULE = ('hypothesis: hierarchy spec (2..7 classes; chain/tree/diamond; implicit,
         'iterated entity, on a to-one reference and on collection items, subclass-attribute filter/projection in a '
         'base-class query, attribute filter through a reference, related objects as query results, '
         'C.select_random(n) / C.select().random(n) for n in 1..3 on root and non-root classes (int pks optionally sparse, '
-        'step 2 or 5, so that MAX(id) exceeds 2n; the `random` module is seeded per operation for replay). On every object '
+        'step 2 or 5, so that MAX(id) exceeds 2n; the `random` module is seeded per operation for replay), tuple queries '
+        'with two entity columns (h.id, h.rA, h.rB) (often of the same declared type), 0..2 extra entities K<j> whose primary '
+        'key is a reference to a hierarchy class (PrimaryKey(T)) or contains one ((ref, n)) and whose rows are loaded '
+        'before the target is reached through the key attribute, and Holder objects / lists of Holders / lists of '
+        'hierarchy objects pickled while their references are unloaded and unpickled in a later session, the '
+        'references then being navigated through the unpickled object. On every object '
         'reached the FIRST look is, per case, at type(), at to_dict() or at an attribute only the subclass has (an '
         'unloaded base-class stub is repaired by the first base-attribute read); afterwards type, all attributes and '
         'to_dict() are compared with the creation record. One case = one spec; '
@@ -43,7 +48,8 @@ SHARDS = {'quick': 4, 'thorough': 16}
 MIN_EVALS = {'quick': 500, 'thorough': 20000}
 CLASS_FLOORS = {'shape:diamond': 0.15, 'shape:chain': 0.10, 'discr:int': 0.08, 'custom_discr': 0.20,
                 'stub_first_session': 0.25, 'isinstance_query': 0.15, 'subclass_attr_query': 0.03, 'reopen': 0.10,
-                'select_random_nonroot': 0.05, 'observe:dict': 0.10, 'observe:subattr': 0.10, 'sparse_pk': 0.10}
+                'select_random_nonroot': 0.05, 'observe:dict': 0.10, 'observe:subattr': 0.10, 'sparse_pk': 0.10,
+                'keyref_navigation': 0.03, 'tuple_two_columns_same_type': 0.015, 'unpickled': 0.15}
 
 
 def _classes(spec, model, stats):
@@ -282,7 +288,22 @@ def _unpickled_stub_with_reverse_value(case, message):
     __setstate__ -> _db_set_ removes the unpickled object from cache.seeds, so nothing reloads it and it keeps the base
     class.  (The bare-key variant is repaired by 0c47526.)"""
     focus, m = _focus_model(case)
-    if focus['kind'] != 'pickle_load' or not focus.get('path', '').startswith('unpickled') or 'obj' not in focus:
+    if focus['kind'] != 'pickle_load':
+        return False
+    if focus.get('mismatch') == 'exception':
+        # diamond: the unpickled B-typed object is no seed any more, so meeting it again as its sibling base C cannot
+        # load it to find the common subclass (the seed-only path of fix 2506255)
+        if focus.get('exc') != 'TransactionError' or 'Unexpected class change' not in focus.get('exc_text', ''):
+            return False
+        for k, r in enumerate(m.spec['refs']):
+            if r['kind'] == 'o2o' and r['fk'] == 'holder':
+                for (h, o) in m.links[k]:
+                    for k2, r2 in enumerate(m.spec['refs']):
+                        t1, t2 = r['target'], r2['target']
+                        if k2 != k and t1 not in m.anc[t2] and t2 not in m.anc[t1] and any(oo == o for (hh, oo) in m.links[k2]):
+                            return True
+        return False
+    if not focus.get('path', '').startswith('unpickled') or 'obj' not in focus:
         return False
     o = focus['obj']
     kcls = m.objs[o]['cls']
@@ -320,7 +341,8 @@ MANIFEST = {
             'C[pk]/C.get for non-instances, exact result sets of select over every class, [not] isinstance forms in '
             'queries against Python isinstance, subclass attributes and to_dict() read back (first look at the class, at '
             'to_dict() or at a subclass-only attribute), select_random / random(n) return only stored instances of the '
-            'class asked for. Sampled, not exhaustive.',
+            'class asked for; objects are also reached through tuple queries with several entity columns, through '
+            'references that are (part of) a primary key and through unpickled objects. Sampled, not exhaustive.',
     'note': 'SQLite only. NULL semantics of `not isinstance(h.ref, C)` for a missing reference are not asserted. Raw-SQL '
             'loading is limited to statements whose WHERE clause already restricts the discriminator to the class asked for.',
     'technique': 'hypothesis data-driven model-based testing against a creation-record oracle',
